@@ -94,22 +94,24 @@ Section Locks.
 
   (* ---------- the chain ---------- *)
   Definition rel (a b : nat) : Prop := a = b \/ In a (ancestors p b) \/ In b (ancestors p a).
+  (* blocks of the method tree; blocks of injected snippets are not seen by get_locked_blocks (C14) *)
   Definition Chain (s : S) : Prop :=
-    forall a b, is_block p a = true -> is_block p b = true -> lk s a = true -> lk s b = true -> rel a b.
+    forall a b, is_block p a = true -> is_block p b = true -> in_method p a = true -> in_method p b = true ->
+                lk s a = true -> lk s b = true -> rel a b.
 
   Lemma Chain_no_new s s' : no_new s s' -> Chain s -> Chain s'.
-  Proof. intros N C a b Ba Bb La Lb. apply C; auto. Qed.
+  Proof. intros N C a b Ba Bb Ma Mb La Lb. apply C; auto. Qed.
 
   Lemma is_block_lt b : is_block p b = true -> (b < length p)%nat.
   Proof.
     unfold is_block, nd. intros H. destruct (Nat.lt_ge_cases b (length p)) as [L|G]; [exact L|].
     rewrite nth_overflow in H by exact G. discriminate.
   Qed.
-  Lemma in_locked s b : is_block p b = true -> lk s b = true -> In b (locked_blocks p s).
+  Lemma in_locked s b : is_block p b = true -> in_method p b = true -> lk s b = true -> In b (locked_blocks p s).
   Proof.
-    intros B L. unfold locked_blocks. rewrite <- in_rev. apply filter_In. split.
+    intros B M L. unfold locked_blocks. rewrite <- in_rev. apply filter_In. split.
     - apply in_seq. pose proof (is_block_lt b B). lia.
-    - unfold lk in L. now rewrite B, L.
+    - unfold lk in L. now rewrite B, M, L.
   Qed.
 
   Lemma memn_In x l : memn x l = true <-> In x l.
@@ -122,13 +124,13 @@ Section Locks.
   Lemma Chain_lock s n en t : Chain s -> can_lock p s n = true ->
     Chain (with_tag (set_ns s n (set_block (st s n) true en)) t).
   Proof.
-    intros C CL a b Ba Bb La Lb.
+    intros C CL a b Ba Bb Ma Mb La Lb.
     assert (Old : forall m, lk (with_tag (set_ns s n (set_block (st s n) true en)) t) m = true -> m = n \/ lk s m = true).
     { intros m. unfold lk. change (Interp.st (with_tag ?x t) m) with (Interp.st x m). rewrite st_set_ns.
       destruct (Nat.eqb m n && Nat.ltb n (length (nodes s))) eqn:E; [|now right].
       apply andb_prop in E as [E _]. apply Nat.eqb_eq in E. now left. }
-    assert (Anc : forall m, is_block p m = true -> lk s m = true -> In m (ancestors p n)).
-    { intros m Bm Lm. unfold can_lock in CL. rewrite forallb_forall in CL. apply memn_In. apply CL. now apply in_locked. }
+    assert (Anc : forall m, is_block p m = true -> in_method p m = true -> lk s m = true -> In m (ancestors p n)).
+    { intros m Bm Mm Lm. unfold can_lock in CL. rewrite forallb_forall in CL. apply memn_In. apply CL. now apply in_locked. }
     destruct (Old a La) as [->|La'], (Old b Lb) as [->|Lb'].
     - now left.
     - right. right. now apply Anc.
@@ -180,6 +182,7 @@ Section Locks.
       + apply NN. nn.
       + apply NN. nn.
       + apply NN. nn.
+      + (* KInjected *) exact C.
     - exact C.
     - destruct (_ || _); exact C.
     - (* FKids *) destruct (nth_error (n_children (nd p n)) i) as [c|]; [|apply NN; nn].
@@ -219,11 +222,12 @@ Section Locks.
       eapply no_new_trans; [|apply no_new_register]. eapply no_new_trans; [|apply no_new_reset_tree].
       eapply no_new_trans; [|apply no_new_unregister]. eapply no_new_trans; [apply no_new_mark_completed|].
       apply no_new_set_ns. cbn. exact id.
+    - (* FInjAfter *) apply NN. nn.
   Qed.
 
   Lemma Chain_init : Chain (init p).
   Proof.
-    intros a b _ _ La _. unfold lk, Interp.st, init in La. cbn [nodes] in La.
+    intros a b _ _ _ _ La _. unfold lk, Interp.st, init in La. cbn [nodes] in La.
     assert (H : forall n, nth a (repeat ns0 n) ns0 = ns0) by (induction n as [|n IH]; destruct a; cbn; auto; apply nth_repeat).
     rewrite H in La. discriminate.
   Qed.
